@@ -85,5 +85,9 @@ def run(ctx):
     ctx.floor("E-REC.depth", "recursor obligations", nrd, 6)
     nse = efreelist.check_sentinel(ctx, F)
     ctx.floor("E-FREELIST.sentinel", "sentinel constants", nse, 7)
+    ctx.explain("E-FREELIST.binding: the thread-local free list / chunk cursor / count delta are touched only on the edge where "
+                "`current_store` equals this store's address (add_node, free_slot).")
+    nsb = efreelist.check_store_binding(ctx, F)
+    ctx.floor("E-FREELIST.binding", "current_store tests", nsb, 2)
     ctx.not_decided = ("equivalence to a sequential execution over schedules, lost updates in the lock-free lists, "
                        "deadlock freedom beyond lock order (condvar protocols): behavioural, not claimed")
